@@ -45,12 +45,23 @@ def cfg_args(c):
         a += ['--reorder-freq', str(c['reorder'])]
     if c['sort']:
         a.append('--sort-gids')
+    a += KNOBS[c.get('knob', '')]
     return a
 
 
+# algorithm-specific knobs of the command line
+KNOBS = {'': [], 'ts3': ['--spatial-hash-table-size', '3'],
+         'nl2': ['--stratified-grid-num-levels', '2'],
+         'lf2': ['--tree-leaf-max-particles', '2'],
+         'H2': ['--spatial-hash-sub-factor', '2']}
+KNOBS_OF = {'sh': ['ts3'], 'esh': ['ts3', 'H2'], 'strat_hash': ['ts3', 'nl2'],
+            'strat_sfc': ['nl2'], 'tree': ['lf2'], 'comp_tree': ['lf2']}
+
+
 def cfg_name(c):
-    return 'nnps=%s cache=%d threads=%d reorder=%d sort=%d' % (
-        c['nnps'], c['cache'], c['threads'], c['reorder'], c['sort'])
+    return 'nnps=%s cache=%d threads=%d reorder=%d sort=%d%s' % (
+        c['nnps'], c['cache'], c['threads'], c['reorder'], c['sort'],
+        (' knob=' + c['knob']) if c.get('knob') else '')
 
 
 REORDER_OK = ('ll', 'ci', 'sfc', 'strat_sfc', 'tree', 'comp_tree')
@@ -124,20 +135,34 @@ def run():
                 pick = []
                 for nn in NNPS:
                     pick.append(next(c for c in allc if c['nnps'] == nn))
-                if prob == 'approach':
-                    # the most discriminating problem: every algorithm with
-                    # the cache and several threads, and with re-ordering
+                if prob in ('approach', 'free'):
+                    # the most discriminating problems (two bodies with
+                    # per-particle h / one array of 144 particles): every
+                    # algorithm with the cache and several threads, with the
+                    # cache and sorted neighbours, with re-ordering, and with
+                    # its own command-line knobs
                     for nn in NNPS:
                         pick.append(next(
                             c for c in allc if c['nnps'] == nn and c['cache']
                             and c['threads'] >= 2 and c not in pick))
+                        pick.append(next(
+                            c for c in allc if c['nnps'] == nn and c['cache']
+                            and c['sort'] and c not in pick))
                         if nn in REORDER_OK:
                             pick.append(next(
                                 c for c in allc if c['nnps'] == nn and
                                 c['reorder'] and c not in pick))
+                        for kn in KNOBS_OF.get(nn, []):
+                            pick.append(dict(next(
+                                c for c in allc if c['nnps'] == nn), knob=kn))
                 pick += [c for c in allc if c not in pick][:6]
             else:
                 pick = allc if not real else allc[:160]
+                if prob in ('approach', 'free'):
+                    for nn in NNPS:
+                        for kn in KNOBS_OF.get(nn, []):
+                            pick += [dict(c, knob=kn) for c in allc
+                                     if c['nnps'] == nn][:8]
             plans[prob] = [b, dict(b)] + pick      # second run = repetition
     # warm the generated-code cache: one run per (problem, openmp on/off)
     warm = []
